@@ -276,10 +276,15 @@ Fixpoint ieval (cols : list nat) (r : row) (e : expr) : option ival :=
 Definition ipred (cols : list nat) (e : expr) (r : row) : bool :=
   match ieval cols r e with Some (IBool true) => true | _ => false end.
 
-(** [FilterOperator::next]: the predicate is evaluated on every physical row of the chunk and the
-    resulting selection replaces the one the chunk came with; chunks without a passing row are
-    skipped *)
+(** [FilterOperator::next] (since df57ccb): the predicate is evaluated on the rows the chunk's
+    selection still selects (a chunk without a selection vector = every row selected); rows that
+    an operator below deselected stay deselected; chunks without a passing row are skipped *)
 Definition filter_chunk (cols : list nat) (e : expr) (c : chunk) : list chunk :=
+  let c' := map (fun br => (fst br && ipred cols e (snd br), snd br)) c in
+  if existsb fst c' then [c'] else [].
+(** before df57ccb: the predicate was evaluated on every physical row and the resulting selection
+    replaced the one the chunk came with (rows dropped by a filter below came back) *)
+Definition filter_chunk_pre (cols : list nat) (e : expr) (c : chunk) : list chunk :=
   let c' := map (fun br => (ipred cols e (snd br), snd br)) c in
   if existsb fst c' then [c'] else [].
 Definition filter_tbl (e : expr) (t : tbl) : tbl :=
